@@ -19,17 +19,19 @@ LEVEL = 'exploration'
 RULE = ('case = one program (words drawn from every decoder path + random words, laid out at the reset PC and at '
         'the exception vectors) run under one scenario: replay-from-deep-copy, history-independence-after-restore, '
         'or an interleaving schedule of 2-3 instances; the per-step trace (all registers, CPSR, system registers, '
-        'memory digest, escaped-exception signature) must equal the solo trace; and, step by step, a running instance against a deep copy of a never-stepped instance restored to its architectural state before EVERY step (bookkeeping flags that are not architectural are not restored); instances also run with the protection unit ON; non-trivial = the program executes '
+        'memory digest, escaped-exception signature) must equal the solo trace; and, step by step, a running instance against a deep copy of a never-stepped instance restored to its architectural state before EVERY step (bookkeeping flags that are not architectural are not restored); instances also run with the protection unit ON; the lower RAM device of an instance ends 0-3 bytes into the word under the initial stack pointer and programs access that word with every size; non-trivial = the program executes '
         '>= 3 distinct PCs and at least one non-undefined instruction; distinct = (scenario, configuration pair, '
         'schedule shape, trace digest)')
 ASSUMPTIONS = ['a "step" is ArmV6.emulate_cycle(); instance creation is ArmV6(config_file) followed by take_reset()',
                'the trace compares architectural state only (not opcode/opcode_len/executed_opcode scratch fields)']
 SHARD_TIMEOUT = {'quick': 900, 'thorough': 7200}
 
-CFGS = ['v6-pmsa-sec', 'v7-vmsa-sec', 'v7-pmsa-r', 'v4-pmsa', 'v5-pmsa', 'v7-vmsa-virt', 'v6-pmsa', 'v6-pmsa-sec-rv', 'v7-vmsa-sec-rv']
+CFGS = ['v6-pmsa-sec', 'v7-vmsa-sec', 'v7-pmsa-r', 'v4-pmsa', 'v5-pmsa', 'v7-vmsa-virt', 'v6-pmsa', 'v6-pmsa-sec-rv', 'v7-vmsa-sec-rv', 'v6-pmsa-sec-impdef', 'v7-vmsa-virt-impdef']
 PAIRS_DIFF = [('v6-pmsa-sec', 'v7-vmsa-sec'), ('v4-pmsa', 'v7-pmsa-r'), ('v7-pmsa-r', 'v6-pmsa-sec'),
               ('v5-pmsa', 'v7-vmsa-virt'), ('v6-pmsa', 'v6-pmsa-sec'), ('v7-vmsa-sec', 'v4-pmsa'),
-              ('v6-pmsa-sec', 'v6-pmsa-sec-rv'), ('v7-vmsa-sec-rv', 'v7-vmsa-sec'), ('v6-pmsa-sec-rv', 'v7-vmsa-sec-rv')]
+              ('v6-pmsa-sec', 'v6-pmsa-sec-rv'), ('v7-vmsa-sec-rv', 'v7-vmsa-sec'), ('v6-pmsa-sec-rv', 'v7-vmsa-sec-rv'),
+              # files that differ in the IMPLEMENTATION DEFINED keys only (reset / VE vectors, region count, syndrome filler bits)
+              ('v6-pmsa-sec', 'v6-pmsa-sec-impdef'), ('v7-vmsa-virt-impdef', 'v7-vmsa-virt')]
 
 
 def plan(tier, seed):
@@ -126,11 +128,20 @@ EXCL_ARM = dict(ldrex=(0xE19D1F9F,), strex=(0xE18D2F93,), clrex=(0xF57FF01F,), f
 EXCL_THUMB = dict(ldrex=(0xE85D, 0x1F00), strex=(0xE84D, 0x3200), clrex=(0xF3BF, 0x8F2F), fill=(0x3401,))
 
 
+# accesses to the two words under the initial stack pointer (0x6FF8 .. 0x6FFF): the lower RAM device of an instance ends inside
+# that word (Inst.create), so word / doubleword / halfword accesses there are served only in part by it
+STACK_ARM = [(0xE92D0003,), (0xE8BD0030,), (0xE50D2008,), (0xE51D1008,), (0xE14D20D8,), (0xE15D40B8,), (0xE50D3004,),
+             (0xE92D0003, 0xE59D5000, 0xE8BD00C0)]
+STACK_THUMB = [(0xB403,), (0xBC30,), (0xF84D, 0x2C08), (0xF85D, 0x1C08), (0xE95D, 0x2302), (0xF83D, 0x4C08), (0xF84D, 0x3C04),
+               (0xB403, 0x9D00, 0xBCC0)]
+
+
 def gen_program(rng, thumb, n=24, seed=0, sensitive=0.0):
     from vf import trace_decode as td
     pool = word_pool(seed)
     out = bytearray()
     excl = rng.random() < 0.15
+    stack = rng.random() < 0.3
 
     def emit(words):
         for w_ in words:
@@ -146,6 +157,9 @@ def gen_program(rng, thumb, n=24, seed=0, sensitive=0.0):
             if rng.random() < 0.2:
                 emit(tab['clrex'])
             emit(tab['strex'])
+            continue
+        if stack and (not out or rng.random() < 0.3):
+            emit(rng.choice(STACK_THUMB if thumb else STACK_ARM))
             continue
         if sensitive and (rng.random() < sensitive or (not out and rng.random() < 0.6)):
             if not thumb:
@@ -205,7 +219,11 @@ class Inst:
             if b == scen.RAM_B[0]:
                 mems += [(b, b + 0x28), (b + 0x28, e)]
             elif b == 0:
-                mems += [(b, 0x6FF8), (0x6FF8, e)]
+                # ... for every other instance at an address that is not a multiple of the access size, so that a word or
+                # doubleword access to the last word of the lower device is served only in part by it (what it returns for
+                # the rest must not depend on any earlier access of any instance)
+                seam = 0x6FF8 + self.regseed % 4
+                mems += [(b, seam), (seam, e)]
             else:
                 mems.append((b, e))
         M.set_memories(self.cpu, mems, M.pattern_fill)
@@ -329,10 +347,11 @@ def aged_steps(spec, res, bump, report, rng):
         a = Inst(cfg, prog, thumb, regseed)
         a.create()
         a.reset()
-        if cfg not in templates:
+        tkey = (cfg, regseed % 4)                # the device layout of an instance depends on its seed (Inst.create)
+        if tkey not in templates:
             t = Inst(cfg, prog, thumb, regseed)
             t.create()
-            templates[cfg] = t.cpu
+            templates[tkey] = t.cpu
         pcs = set()
         for k in range(spec['steps']):
             pre = observe.snapshot(a.cpu)
@@ -342,12 +361,12 @@ def aged_steps(spec, res, bump, report, rng):
                 pre = observe.snapshot(a.cpu)
             ta = a.step()
             b = Inst(cfg, prog, thumb, regseed)
-            b.cpu = copy.deepcopy(templates[cfg])
+            b.cpu = copy.deepcopy(templates[tkey])
             observe.restore(b.cpu, pre)
             # bookkeeping that is not architectural state keeps the never-stepped instance's value: if the running instance
             # carries something else across a step boundary, that is exactly the history this scenario looks for
             if hasattr(b.cpu.registers, 'it_state_restored'):
-                b.cpu.registers.it_state_restored = templates[cfg].registers.it_state_restored
+                b.cpu.registers.it_state_restored = templates[tkey].registers.it_state_restored
             tb = b.step()
             res['evaluations'] += 1
             bump('aged_steps_compared')
@@ -443,7 +462,8 @@ def run_shard(spec):
                 age_prog, age_thumb = gen_program(rng, not thumb, seed=spec['seed']), not thumb
             else:
                 age_prog, age_thumb = prog, thumb
-            ta = child(sc_from_snapshot, cfg, snap, age_prog, age_thumb, rng.getrandbits(32), rng.randrange(3, 25), 10)
+            # (another register seed with the same device layout: the snapshot is restored device by device)
+            ta = child(sc_from_snapshot, cfg, snap, age_prog, age_thumb, (rng.getrandbits(32) & ~3) | (regseed & 3), rng.randrange(3, 25), 10)
             tb = child(sc_from_snapshot, cfg, snap, prog, thumb, regseed, 0, 10)
             if ta is None or tb is None:
                 continue
